@@ -2,7 +2,7 @@ ID = "C19"
 TESTS = [
     T("nfs40sim", "TestC19NFS40Retransmission",
       {"checks": 3000, "shards": 2, "timeout": 300},
-      {"checks": 60000, "shards": 16, "timeout": 1500}),
+      {"checks": 40000, "shards": 5, "timeout": 1500}),
 ]
 ASSUMPTIONS = [
     "NFSv4.0: byte equality is asserted for the result of the seqid-bearing operation (and the operations before it); two OPENs under one seqid with different arguments are the same request (RFC 7530 9.1.9) and get the cached reply; at most one request waits behind an in-progress transaction of an open-owner (a second waiter would make the wake-up order scheduler dependent)",
